@@ -168,10 +168,11 @@ def toStatement : Nat → Datum → XM Statement
           else if kw = "set!" then do
             let target ← need args.head?
             match target with
-            | .sym name _ => do
+            | .sym name targetLoc => do
               let v ← need (args.drop 1).head?
               let v ← toExpr fuel v
-              pure (.expr (.assign name v location))
+              -- located at the variable being assigned (else at the form)
+              pure (.expr (.assign name v (targetLoc.orElse (fun _ => location))))
             | _ => fail (.syntax, none)
           else if kw = "define-syntax" then do
             let k ← need args.head?
